@@ -20,8 +20,9 @@ MODEL_PATH = WORK + "/model.mpt"
 # the fault matrix
 # ------------------------------------------------------------------------------------------------
 WRONG12 = {
-    "number": [("str", "abc"), ("list", [1, 2]), ("tuple", {"K": "v"})],
-    "numbers": [("scalar-number", 3), ("scalar-str", "abc"), ("tuple", {"K": "v"}), ("item-str", "$ITEM:abc")],
+    "number": [("str", "abc"), ("list", [1, 2]), ("tuple", {"K": "v"}), ("bool-word", True)],
+    "numbers": [("scalar-number", 3), ("scalar-str", "abc"), ("tuple", {"K": "v"}), ("item-str", "$ITEM:abc"),
+                ("item-bool-word", "$ITEM:True")],
     "result": [("number", 5), ("list", ["$REF"]), ("unknown", "nosuch")],
     "results": [("scalar", "$REF"), ("tuple", {"K": "v"}), ("item-unknown", "$ITEM:nosuch"), ("item-number", "$ITEM:7")],
     "bool": [("str", "maybe"), ("list", [1])],
@@ -33,7 +34,7 @@ WRONG12 = {
 }
 # kinds that only the chaos mode uses (the statement of C12 does not list them)
 WRONG13_EXTRA = {
-    "number": [("nested-list", [[1], [2, [3]]]), ("bool", True), ("empty-list", []), ("inf-word", "inf"),
+    "number": [("nested-list", [[1], [2, [3]]]), ("empty-list", []), ("inf-word", "inf"),
                ("nan-word", "nan"), ("infinity-word", "Infinity"), ("huge-decimal", "$RAW:1" + "0" * 400 + ".0")],
     "numbers": [("nested-list", [[1, 2], [3]]), ("item-list", "$ITEM:[1]"), ("item-tuple", "$ITEM:{}")],
     "result": [("tuple", {"K": "v"}), ("nested-list", [["$REF"]]), ("float", 0.5)],
@@ -204,7 +205,7 @@ def concretise(rng, model, cell):
 
         if isinstance(val, str) and val.startswith("$ITEM:"):
             item = val[len("$ITEM:"):]
-            item = {"abc": "abc", "nosuch": "nosuch", "7": 7, "[1]": [1], "{}": {"K": "v"}, "[$REF]": [ref]}[item]
+            item = {"abc": "abc", "nosuch": "nosuch", "7": 7, "[1]": [1], "{}": {"K": "v"}, "[$REF]": [ref], "True": True}[item]
             base = list(cur) if isinstance(cur, list) and cur else ([1.5, 2] if cell["pkind"] == "numbers" else [ref])
             pos = rng.randrange(len(base))
             base[pos] = item
@@ -340,6 +341,8 @@ def expected_errors(fault):
             return [("PathDoesNotExist", {"path$": str(v).rsplit("/", 1)[-1]})]
         if lab == "relative-no-wd":
             return [("InvalidRelativePath", {"path": v})]
+        if lab in ("bool-word", "item-bool-word"):
+            return [("ParameterNotValid", {})]       # (the word arrives as text or as a boolean, whichever the parser makes of it)
         if lab.startswith("item-"):
             item = fault.get("item")
             return [("ParameterNotValid", {"value": item} if not isinstance(item, (list, dict)) else {})]
@@ -569,7 +572,9 @@ def _generate12(rng, index, tier):
           # history: what the process loaded before (an EEMS 2.0 style file; a program over other libraries), and
           # whether the client calls run() again after the rejection
           "preload": rng.choice([None, None, "v2", "v2", "netcdf-program"]), "rerun": rng.random() < 0.35,
-          "api_recovery": rng.random() < 0.4, "data_repair": rng.random() < 0.5}
+          "api_recovery": rng.random() < 0.4, "data_repair": rng.random() < 0.5,
+          # the (default) libraries named through a generator instead of a tuple
+          "libs_as_iter": rng.random() < 0.15}
     sc.update(sch)
     if cell.get("v2") and sc["fault"]:
         # EEMS 2.0 dialect: the translation drops every OutFileName argument, so such files have no file-writing commands
@@ -597,7 +602,7 @@ def _generate12(rng, index, tier):
 TEXT_OPS = ("delete", "duplicate", "swap", "unbalance-open", "unbalance-close", "quote-open", "backslash-x",
             "backslash-u", "backslash-N", "backslash-end", "non-ascii", "surrogate", "nul", "strip-result", "garbage-char",
             "number-exp", "v2-head", "colon-in-list", "empty-arglist", "list-then-pair", "pair-then-list", "huge-int",
-            "v2-numeric-name", "deep-list", "deep-chain")
+            "v2-numeric-name", "deep-list", "deep-chain", "copy-cycle")
 DEEP_N = (250, 1100, 2500)
 CSV_OPS = ("second-table", "second-table", "odd-field-name", "odd-field-name-missing", "empty", "header-only", "ragged-short", "ragged-long", "non-numeric", "missing-column", "dup-header",
            "truncated", "nul-bytes", "huge", "inf", "nan", "blank-first", "bom", "quoted-cell", "empty-cell")
@@ -653,7 +658,7 @@ def _generate13(rng, index, tier):
             followups.append(["RUN"] if rng.random() < 0.5 else ["GET", rng.randrange(100)])
     r = rng.random()
     if r < 0.04:
-        extra = "netcdf-missing-variable"
+        extra = rng.choice(["netcdf-missing-variable", "netcdf-kind-confusion"])
         route = "cli"
     elif r < 0.08:
         extra = "duplicate-library"
@@ -758,6 +763,14 @@ def corrupt_text(text, f):
         return ('READ(InFileName = "in.csv", InFieldName = 2020)\nREAD(InFileName = "in.csv", InFieldName = c0)\n'
                 'SUM(InFieldNames = [c0], NewFieldName = total)\n' + ("COPYFIELD(InFieldName = c0, NewFieldName = 7)\n"
                                                                       if f["tok2"] % 2 else "") + more)
+    elif op == "copy-cycle":
+        # commands that only copy each other, consumed by commands that care about fuzziness
+        extra = ("CCa = Copy(InFieldName = CCb)\nCCb = Copy(InFieldName = CCa)\n",
+                 "CCa = Copy(InFieldName = CCa)\n",
+                 "CCa = Copy(InFieldName = CCb)\nCCb = Copy(InFieldName = CCc)\nCCc = Copy(InFieldName = CCa)\n")[f["tok"] % 3]
+        user = ("CCz = FuzzyNot(InFieldName = CCa)\n", "CCz = Sum(InFieldNames = [CCa, CCa])\n",
+                "CCz = FuzzyOr(InFieldNames = [CCa])\n")[f["tok2"] % 3]
+        return (user + "".join(toks) + "\n" + extra) if f["tok2"] % 2 else ("".join(toks) + "\n" + extra + user)
     elif op == "deep-chain":
         # a long chain of dependent commands (deeper than the interpreter's default recursion limit for the larger sizes),
         # written consumer-first or producer-first
@@ -916,6 +929,9 @@ def run_once(sc, log, res, route, text, csv, fs_faults, actor, exec_faults, libr
                 wd = None if sc.get("no_wd") else WORK
                 if libraries:
                     program = Program.from_source(text, libraries=libraries, working_dir=wd)
+                elif sc.get("libs_as_iter"):
+                    from mpilot.program import EEMS_CSV_LIBRARIES
+                    program = Program.from_source(text, libraries=(lib for lib in EEMS_CSV_LIBRARIES), working_dir=wd)
                 else:
                     program = Program.from_source(text, working_dir=wd)
                 mon.install(list(program.command_library.values()))
@@ -1509,6 +1525,16 @@ def _execute13(sc):
         import os
         nc = os.path.join(os.environ.get("MPSIM_SCRATCH", ""), "repo_test_data", "netcdf_test.nc")
         text = 'X = EEMSRead(InFileName = "%s", InFieldName = nosuchvar)\n' % nc
+        cli_args = ["eems-netcdf", MODEL_PATH]
+        libraries = ("mpilot.libraries.eems.basic", "mpilot.libraries.eems.netcdf", "mpilot.libraries.eems.fuzzy")
+    elif extra == "netcdf-kind-confusion":
+        import os
+        nc = os.path.join(os.environ.get("MPSIM_SCRATCH", ""), "repo_test_data", "netcdf_test.nc")
+        k = sum(len(str(f_.get("op", ""))) for f_ in faults) + len(model["cmds"])
+        bad = ('[Fuzzy]', '[K: v]', '5', '"Fuzzy "', '[[Float]]')[k % 5]
+        read = 'X = EEMSRead(InFileName = "%s", InFieldName = elevation, DataType = %s)\n' % (nc, bad)
+        user = ("Z = FuzzyNot(InFieldName = X)\n", "Z = Sum(InFieldNames = [X, X])\n")[k % 2]
+        text = (user + read) if (k // 2) % 2 else (read + user)
         cli_args = ["eems-netcdf", MODEL_PATH]
         libraries = ("mpilot.libraries.eems.basic", "mpilot.libraries.eems.netcdf", "mpilot.libraries.eems.fuzzy")
     elif extra == "duplicate-library":
